@@ -3,7 +3,7 @@
    Model/FdLedger.v: the descriptor table as a ledger fd -> (owner, close-on-exec, created-by-libuv);
    [run fixed fds ops orc]: a fresh process holding descriptors [fds] runs the libuv operations [ops];
    [orc] is the kernel's answer at each creation point (ok / EMFILE-ENFILE / other failure).
-   [run true] is the code as it is (after /repo 9298bc0 and 4ad4719); [run false] is the code
+   [run true] is the code as it is (after /repo 9298bc0, 4ad4719 and c6159bf); [run false] is the code
    before those two commits, kept as history with its refutation witnesses. *)
 From UV Require Import Lib.Base Model.FdLedger Proofs.FdLedgerProofs.
 
@@ -48,12 +48,13 @@ Lemma C15_history_field_closes_owned :
 Proof. exact never_close_foreign. Qed.
 Print Assumptions C15_history_field_closes_owned.
 
-(* Descriptors 0-2 wrapped in a stream handle survive uv_close: in any state, uv_close of an open
-   tcp/pipe handle h leaves the entry held in h's io_watcher.fd in the table when its number is
-   <= 2, and hands it back to the caller. *)
+(* Descriptors 0-2 wrapped in a handle survive uv_close: in any state, uv_close of an open handle h
+   that has an io_watcher.fd field (tcp, pipe, and - since /repo c6159bf - udp: [hok m h HIo])
+   leaves the entry held in that field in the table when its number is <= 2, and hands it back to
+   the caller. *)
 Theorem C15_stdio_survives_uv_close :
   forall (m : mstate) (s : ist) (h fd : nat) (e : entry),
-  m_abort m = false -> is_open m h = true -> is_stream (ty_of m h) = true ->
+  m_abort m = false -> hok m h HIo = true ->
   In (fd, e) (i_led s) -> e_owner e = OHandle h HIo -> fd <= 2 ->
   In (fd, set_owner OUser e) (i_led (snd (step (m, s) (OClose h)))).
 Proof. exact stdio_survives_uv_close. Qed.
